@@ -23,6 +23,8 @@ pub enum QOp {
 
 #[derive(Clone, Debug)]
 pub enum Op {
+    /// `*u = u.join(reference)?` - resolution against the current URL
+    Join(String),
     /// query_pairs_mut() session; `true` = ended by an explicit finish(), `false` = by dropping the serializer
     Qpm(bool, Vec<QOp>),
     SetFragment(Option<String>),
@@ -78,6 +80,7 @@ impl Op {
                 format!("psm {}", v.join(" "))
             }
             Op::Quirk(name, v) => format!("q_set_{} {}", name, hexs(v)),
+            Op::Join(r) => format!("join {}", hexs(r)),
             Op::Qpm(fin, ops) => {
                 let v: Vec<String> = ops
                     .iter()
@@ -132,6 +135,7 @@ impl Op {
                     })
                     .collect(),
             ),
+            "join" => Op::Join(unhexs(w[1])),
             "qpm" => {
                 let pair = |s: &str| {
                     let mut it = s.split('=');
@@ -169,6 +173,7 @@ impl Op {
         match self {
             Op::Quirk(n, _) => format!("q_{}", n),
             Op::Psm(_) => "psm".into(),
+            Op::Join(_) => "join".into(),
             Op::Qpm(f, _) => if *f { "qpm_finish".into() } else { "qpm_drop".into() },
             o => o.token().split(' ').next().unwrap().to_string(),
         }
@@ -223,6 +228,13 @@ impl Op {
                     }
                     "ok".into()
                 }
+            },
+            Op::Join(r) => match u.join(r) {
+                Ok(n) => {
+                    *u = n;
+                    "ok".into()
+                }
+                Err(e) => format!("err{:x}", parse_error_code(e)),
             },
             Op::Qpm(fin, ops) => {
                 let mut s = u.query_pairs_mut();
@@ -328,7 +340,7 @@ pub fn random_op(rng: &mut Rng, quirks_only: bool) -> Op {
     if quirks_only || rng.chance(1, 3) {
         return Op::Quirk(QUIRK_SETTERS[rng.below(9)], pick_s(rng, &pool));
     }
-    match rng.below(14) {
+    match rng.below(15) {
         0 => Op::SetFragment(pick_o(rng, &pool)),
         1 => Op::SetQuery(pick_o(rng, &pool)),
         2 | 3 => Op::SetPath(pick_s(rng, &pool)),
@@ -354,6 +366,7 @@ pub fn random_op(rng: &mut Rng, quirks_only: bool) -> Op {
         8 => Op::SetPassword(pick_o(rng, &pool)),
         9 => Op::SetUsername(pick_s(rng, &pool)),
         10 => Op::SetScheme(pick_s(rng, &pool)),
+        12 => Op::Join(if rng.chance(1, 2) { pick_s(rng, &pool) } else { random_url_string(rng) }),
         11 => {
             let n = rng.below(4);
             Op::Qpm(
@@ -398,6 +411,7 @@ pub fn all_single_ops() -> Vec<Op> {
         v.push(Op::SetPassword(Some(s.clone())));
         v.push(Op::SetUsername(s.clone()));
         v.push(Op::SetScheme(s.clone()));
+        v.push(Op::Join(s.clone()));
         v.push(Op::Psm(vec![PsmOp::Push(s.clone())]));
         for q in QUIRK_SETTERS {
             v.push(Op::Quirk(q, s.clone()));
@@ -452,6 +466,11 @@ pub fn start_pool() -> Vec<Url> {
         "a:/..//x",
         "ws://h/a/../b",
         "https://example.com:8443/a%20b/c;d=e?x=%41#%7B",
+        "file://127.0.0.1/share/f",
+        "file://[::1]/x/y",
+        "http://[1:0:0:2:0:0:3:4]:81/p?q#f",
+        "ws://h:443/p?q#f",
+        "http://h:443/p#f",
     ] {
         v.push(Url::parse(s).expect("start2"));
     }
